@@ -111,6 +111,14 @@ fn reserved(w: &str) -> Option<K> {
 }
 
 pub fn lex(s: &str) -> Result<Vec<RTok>, LexError> {
+    match lex_partial(s) {
+        (t, None) => Ok(t),
+        (_, Some(e)) => Err(e),
+    }
+}
+
+/// The tokens recognised before the first lexical error (if any), and that error.
+pub fn lex_partial(s: &str) -> (Vec<RTok>, Option<LexError>) {
     let chars: Vec<(usize, char)> = s.char_indices().collect();
     let n = chars.len();
     let pos = |i: usize| if i < n { chars[i].0 } else { s.len() };
@@ -118,14 +126,15 @@ pub fn lex(s: &str) -> Result<Vec<RTok>, LexError> {
     let mut toks: Vec<RTok> = vec![];
     let mut i = 0;
     macro_rules! fail {
-        ($idx:expr, $c:expr, $site:expr) => {
-            return Err(LexError {
+        ($idx:expr, $c:expr, $site:expr) => {{
+            let e = LexError {
                 index: $idx,
                 ch: $c,
                 tokens_before: toks.len(),
                 site: $site,
-            })
-        };
+            };
+            return (toks, Some(e));
+        }};
     }
     while i < n {
         let c = chars[i].1;
@@ -252,7 +261,7 @@ pub fn lex(s: &str) -> Result<Vec<RTok>, LexError> {
             None => fail!(pos(i), Some(c), "stray-character"),
         }
     }
-    Ok(toks)
+    (toks, None)
 }
 
 /// Render a kiki token as (kind, start, text) for comparison with the reference.
